@@ -379,7 +379,7 @@ def _check_sdp_from_eigen(w, tol=None):
     raise ValueError("tol should be positive.")
   if any(w < - tol):
     raise NonPSDError()
-  if any(abs(w) < tol):
+  if any(abs(w) <= tol):
     return False
   return True
 
